@@ -72,7 +72,12 @@ def caseJson (env : Env) (j : Json) : Except String Json := do
               ("raises", jbool (raisesP env ph text p)),
               ("unmodelled", jbool (unmodelledP env p)),
               -- the hypothesis `LookupStable` of `C01.issue_indices_in_tag`, evaluated on this text
-              ("stable", jbool ((tagsList p.root0).all fun t => !t.entry.isSome || decide (canon env t = (t, []))))])
+              ("stable", jbool ((tagsList p.root0).all fun t => !t.entry.isSome ||
+                ((canon env t).2.isEmpty && decide ((canon env t).1.extVal.length ≤ t.extVal.length)))),
+              -- its conclusion, evaluated directly: every index pair inside its tag, every tag inside the text
+              ("inrange", jbool ((validateP env ph text p).all fun i => match i.span, i.sub with
+                | some (s, e), some (a, b) => decide (a ≤ b ∧ b ≤ e - s ∧ s ≤ e ∧ e ≤ text.length)
+                | _, _ => true))])
 
 def handle (op : String) (j : Json) : Option (Except String Json) :=
   match op with
